@@ -175,6 +175,16 @@ func (t *c03Table) anyOf(id string, request bool) *anypb.Any {
 		a.Value = append(append([]byte{}, a.Value...), c03UnknownField...)
 		return a
 	}
+	if strings.HasSuffix(id, "^") {
+		// the same bytes under another message type with the same field layout
+		a := t.anyOf(strings.TrimSuffix(id, "^"), request)
+		if strings.HasSuffix(a.TypeUrl, ".IdempotentUnaryRequest") || !request {
+			a.TypeUrl = "type.googleapis.com/connectrpc.conformance.v1.UnaryRequest"
+		} else {
+			a.TypeUrl = "type.googleapis.com/connectrpc.conformance.v1.IdempotentUnaryRequest"
+		}
+		return a
+	}
 	var msg proto.Message
 	if request {
 		msg = &conformancev1.UnaryRequest{RequestData: []byte(id)}
@@ -372,6 +382,10 @@ var c03Pats = []c03Pat{
 		return c03Tag{C: "requests.count", N: m[1] + "/" + m[2]}
 	}},
 	{regexp.MustCompile(`(?s)^request #(\d+): did not survive round-trip`), func(m []string) c03Tag {
+		return c03Tag{C: "request", P: c03Atoi(m[1])}
+	}},
+	// an echoed request that cannot even be decoded as the type it claims is a deviation of that request too
+	{regexp.MustCompile(`(?s)^request #(\d+): failed to unmarshal actual message`), func(m []string) c03Tag {
 		return c03Tag{C: "request", P: c03Atoi(m[1])}
 	}},
 	{regexp.MustCompile(`(?s)^actual HTTP status code does not match: wanted \d+; got \d+$`), func(m []string) c03Tag { return c03Tag{C: "status"} }},
@@ -832,6 +846,7 @@ func c03InfoMuts(base *c03Result, loc string, first bool, get func(r *c03Result)
 		k := k
 		at := fmt.Sprintf("@%d", k+1)
 		with("rq.alter"+at, func(i *c03Info) { i.Rq[k] += "~" })
+		with("rq.retype"+at, func(i *c03Info) { i.Rq[k] += "^" })
 		with("rq.drop"+at, func(i *c03Info) { i.Rq = c03SeqRemove(i.Rq, k) })
 		with("rq.dup"+at, func(i *c03Info) { i.Rq = c03SeqDup(i.Rq, k) })
 		if k+1 < len(inf.Rq) {
